@@ -98,8 +98,8 @@ def build_op(node):
 
 def variants():
     """(node, modes)"""
-    both = ('plain', 'mux', 'group')
-    mux = ('mux', 'group')
+    both = ('plain', 'mux', 'group', 'roll', 'split')
+    mux = ('mux', 'group', 'roll', 'split')
     yield ['first'], both
     yield ['last'], both
     for n in (0, 1, 2, 3, 7):
@@ -133,7 +133,7 @@ class C10(Check):
     RULE = ('case = (operator with parameters, mode, sequence). Box: EVERY sequence over {0,1,2,None} of length <= 4 (quick) / 6 (thorough) x 55 operator variants '
             '(first, last, take n in {0,1,2,3,7}, distinct / distinct_until_changed with key None/isnone/parity, lag n in {0,1,2,3,5}, pad_start / pad_end n in 0..3 with value '
             'None/explicit, start_with (incl. empty padding), batch n in {1,2,3,4,7}, sort by key asc/desc on (key, tag) pairs to observe stability) x modes plain (where the '
-            'operator supports it), one multiplexed key, and per group under group_by with 2-3 interleaved groups; then random sequences of length up to 40 with lengths at and '
+            'operator supports it), one multiplexed key, per group under group_by with 2-3 interleaved groups, and per lifetime inside roll(2,2) windows and split segments (one key slot serving successive lifetimes); then random sequences of length up to 40 with lengths at and '
             'around multiples of n. non-trivial = sequence length >= 2; distinct = hash of the case')
     ASSUMPTIONS = ['first / last on an empty PLAIN observable raise by design and are not compared there',
                    'sort is documented for plain observables only; batch(0) and negative sizes are outside the statement']
@@ -141,7 +141,7 @@ class C10(Check):
                'rxsci/operators/distinct_until_changed.py', 'rxsci/data/lag.py', 'rxsci/data/pad.py', 'rxsci/operators/start_with.py',
                'rxsci/data/batch.py', 'rxsci/data/sort.py']
     REQUIRED_TAGS = ['first', 'last', 'take', 'distinct', 'duc', 'lag', 'pad_start', 'pad_end', 'start_with', 'batch', 'sort',
-                     'plain', 'mux', 'group', 'empty', 'has-None', 'len-multiple-of-n']
+                     'plain', 'mux', 'group', 'roll', 'split', 'empty', 'has-None', 'len-multiple-of-n']
     REQUIRED_OBSERVED = ['sequences_compared']
 
     def generate(self, rng, tier, shard, nshards):
@@ -157,8 +157,8 @@ class C10(Check):
                         idx += 1
                         if idx % nshards != shard:
                             continue
-                        if mode == 'group' and (idx // nshards) % 3:
-                            continue            # group mode on a third of the box (it runs 2-3 sequences at once)
+                        if mode in ('group', 'roll', 'split') and (idx // nshards) % 3:
+                            continue            # keyed modes on a third of the box (they run several sequences at once)
                         yield {'op': node, 'mode': mode, 'seq': list(seq), 'gseed': idx}
         self.box_done = 1
 
@@ -205,6 +205,28 @@ class C10(Check):
             out.observed['sequences_compared'] += 1
             if norm(s.out) != norm(want):
                 out.fail('differs-from-list-definition', op=node, mode=mode, seq=seq, want=want, got=s.out)
+            return out
+
+        if mode in ('roll', 'split'):
+            # the operator serves successive lifetimes of ONE key slot (windows / segments): each lifetime's
+            # output must be the list definition applied to that lifetime's items alone
+            from ..muxmon import lifetimes
+            head, tail = [], []
+            op = build_op(node)
+            inner = [tap(head), op, tap(tail)]
+            ctx = rs.data.roll(2, 2, inner) if mode == 'roll' else rs.data.split(KEYF['par'], inner)
+            s = subscribe(rx.from_(seq).pipe(rs.state.with_memory_store([ctx])), Snap())
+            if s.err is not None or not s.done:
+                return out.fail('operator-errored', op=node, mode=mode, seq=seq, error=repr(s.err), done=s.done)
+            hl, odd1 = lifetimes(head)
+            tl, odd2 = lifetimes(tail)
+            if odd1 or odd2 or len(hl) != len(tl):
+                return out.fail('lifetimes-do-not-pair-up', op=node, mode=mode, seq=seq, odd=[repr(o) for o in (odd1 + odd2)[:3]])
+            for lt, t in zip(hl, tl):
+                want = list_def(node, lt.items)
+                out.observed['sequences_compared'] += 1
+                if norm(t.items) != norm(want):
+                    return out.fail('differs-from-list-definition', op=node, mode=mode, lifetime_items=lt.items, want=want, got=t.items, seq=seq)
             return out
 
         # group mode: 2-3 groups, the case's sequence plus rotations of it, interleaved
